@@ -1,6 +1,6 @@
 // Driver for C08 (reported status is truthful: live while running, final afterwards, never stuck).
 //
-//	status inproc <out.jsonl> <tier> <workdir>     in-process agent cases (real agent.New(...).Run, scripted executor)
+//	status inproc <out.jsonl> <tier> <workdir> [specs.jsonl]   in-process agent cases (generated, or the given ones) (real agent.New(...).Run, scripted executor)
 //	status latest <dagfile> <home>                 what a fresh process is told: client.GetLatestStatus / GetCurrentStatus
 //	status tick   <dagfile> <home> <executable>    one daemon tick (real internal/scheduler + real client) for the next minute
 //
@@ -135,6 +135,7 @@ type StepS struct {
 	Cos     bool     `json:"cos"`
 	Pre     bool     `json:"pre"` // false: the step's precondition is unmet
 	HoldMs  int      `json:"hold_ms"`
+	SlowPre int      `json:"slow_pre_ms"` // > 0: a MET precondition whose evaluation takes that long (a script)
 }
 
 type ExecEv struct {
@@ -420,7 +421,7 @@ func (h *recHist) Close() error {
 
 var lg = logger.NewLogger(logger.NewLoggerArgs{Quiet: true})
 
-func yamlOf(c *Case, name, tag string) string {
+func yamlOf(c *Case, name, tag, dir string) string {
 	var b strings.Builder
 	fmt.Fprintf(&b, "name: %s\nhistRetentionDays: 30\nmaxCleanUpTimeSec: 5\n", name)
 	ex := func(ind string) {
@@ -451,6 +452,10 @@ func yamlOf(c *Case, name, tag string) string {
 		}
 		if !s.Pre {
 			b.WriteString("    preconditions:\n      - condition: \"verif-a\"\n        expected: \"verif-b\"\n")
+		} else if s.SlowPre > 0 {
+			script := filepath.Join(dir, "slow-"+s.Name+".sh")
+			_ = os.WriteFile(script, []byte(fmt.Sprintf("#!/bin/sh\nsleep %d.%03d\necho 1\n", s.SlowPre/1000, s.SlowPre%1000)), 0o755)
+			fmt.Fprintf(&b, "    preconditions:\n      - condition: \"`%s`\"\n        expected: \"1\"\n", script)
 		}
 	}
 	return b.String()
@@ -470,7 +475,7 @@ func runCase(c *Case, work string) {
 		}
 	}
 	file := filepath.Join(dags, name+".yaml")
-	if err := os.WriteFile(file, []byte(yamlOf(c, name, tag)), 0o644); err != nil {
+	if err := os.WriteFile(file, []byte(yamlOf(c, name, tag, dir)), 0o644); err != nil {
 		c.Infra = err.Error()
 		return
 	}
@@ -531,7 +536,7 @@ func runCase(c *Case, work string) {
 		}
 	}()
 	c.TStop = -1
-	if c.Kind == "stop" {
+	if c.Kind == "stop" || c.Kind == "stopcommit" {
 		go func() {
 			time.Sleep(time.Duration(c.StopAtMs) * time.Millisecond)
 			if stop.Load() {
@@ -659,6 +664,12 @@ func genCase(k int, r *vh.Rng, kind string) *Case {
 				}
 			}
 		}
+	case "stopcommit":
+		// DESIGN.md F5c: the stop request arrives while the loop thread evaluates a (slow) step precondition, i.e. after
+		// it has passed its cancel check for that step
+		c.Steps = genSteps(r, 1+r.Below(2), true)
+		c.Steps[0].SlowPre = 250 + r.Below(100)
+		c.StopAtMs = 60 + r.Below(100)
 	case "race":
 		// a chain a -> b (-> c): a ends at once, b is launched one polling period (100 ms) later and runs past the
 		// "first status" instant, so that the snapshot taken ~100 ms in differs from the final one; that
@@ -678,16 +689,43 @@ func genCase(k int, r *vh.Rng, kind string) *Case {
 	return c
 }
 
-func inproc(outPath, tier, work string) {
+// readSpecs: cases given by the caller (replay / shrinking) instead of generated ones: one JSON object per line with the
+// input fields of Case (k, kind, steps, handlers, handler_fails, stop_at_ms, hold_ms)
+func readSpecs(path string) []*Case {
+	b, err := os.ReadFile(path)
+	if err != nil {
+		panic(err)
+	}
+	var out []*Case
+	for _, ln := range strings.Split(string(b), "\n") {
+		if strings.TrimSpace(ln) == "" {
+			continue
+		}
+		c := &Case{}
+		if err := json.Unmarshal([]byte(ln), c); err != nil {
+			panic(err)
+		}
+		if c.Handlers == nil {
+			c.Handlers = []string{}
+		}
+		if c.HandlerBad == nil {
+			c.HandlerBad = map[string]bool{}
+		}
+		out = append(out, c)
+	}
+	return out
+}
+
+func inproc(outPath, tier, work, specs string) {
 	out, err := vh.NewOut(outPath)
 	if err != nil {
 		panic(err)
 	}
 	defer out.Close()
 	seed := vh.SeedFromEnv()
-	nPlain, nStop, nRace := 44, 10, 10
+	nPlain, nStop, nRace, nCommit := 44, 10, 10, 2
 	if tier == "thorough" {
-		nPlain, nStop, nRace = 700, 150, 150
+		nPlain, nStop, nRace, nCommit = 700, 150, 150, 20
 	}
 	var cases []*Case
 	k := 0
@@ -697,9 +735,14 @@ func inproc(outPath, tier, work string) {
 			k++
 		}
 	}
-	add(nPlain, "plain")
-	add(nStop, "stop")
-	add(nRace, "race")
+	if specs != "" {
+		cases = readSpecs(specs)
+	} else {
+		add(nPlain, "plain")
+		add(nStop, "stop")
+		add(nRace, "race")
+		add(nCommit, "stopcommit")
+	}
 	sem := make(chan struct{}, 8)
 	var wg sync.WaitGroup
 	for _, c := range cases {
@@ -870,7 +913,11 @@ func main() {
 	}
 	switch os.Args[1] {
 	case "inproc":
-		inproc(os.Args[2], os.Args[3], os.Args[4])
+		specs := ""
+		if len(os.Args) > 5 {
+			specs = os.Args[5]
+		}
+		inproc(os.Args[2], os.Args[3], os.Args[4], specs)
 	case "latest":
 		latest(os.Args[2], os.Args[3])
 	case "tick":
